@@ -67,7 +67,7 @@ C08Call ==
        /\ (pol \in (InvalidPolicies \cup {AngleBased}) /\ \A p \in P7 : Ok(a, p)) => \A p \in P7 : SameEntry(a, b, p)
        \* (c) not flagged => conventional; replaced => flagged (half-of-night exempt)
        /\ pol \notin {HalfAlways, HalfInvalid} =>
-             \A p \in P6 : (Ok(b, p) /\ ~Flagged(b, p)) => SameEntry(a, b, p)
+             \A p \in P7 : (Ok(b, p) /\ ~Flagged(b, p)) => SameEntry(a, b, p)
        \* no policy, no flag
        /\ \A p \in P7 : ~Flagged(a, p)
     /\ Step
